@@ -59,7 +59,7 @@ def obligations(cx):
         no_abnormal(cx, meth, ps, function=fn)
         # the formula below is a contract for EVERY call, whatever was converted before: no state that outlives the call is written
         writes = [w for q_ in ps for w in q_.ex.ext_writes]
-        cx.ob("%s.frame" % meth, [], blit(not writes), kind='frame', function=fn, writes=str(sorted({w[1] for w in writes}))[:300],
+        cx.ob("%s.frame" % meth, [], blit(not writes), kind='frame', function=fn, writes=str(sorted({w[1] for w in writes}))[:300], **frame_meta(writes),
               statement="the conversion writes nothing but its freshly allocated result (no cache, no module-level state, arguments untouched)")
         r = only_return(ps, fn)
         if not (isinstance(r.value, Obj) and r.value.cls == 'Composition'): raise Unsupported("%s does not return a Composition" % fn)
